@@ -73,7 +73,37 @@ func (g *G) callOpt(depth int, allowContent bool) ref.Node {
 		}
 	}
 	viaData := map[string]bool{}
+	forceOverride := false
 	if mode == 3 {
+		// when the callee needs nothing beyond what a visible map variable carries, pass (a view of) that variable:
+		// data="$m", data="augmentMap($m, [:])", data="augmentMap([:], $m)", data="augmentMap($m, ['a': ...])"
+		if ms := g.refsOf(TMapAS); len(ms) > 0 && g.R.P(1, 2) {
+			fits := true
+			for _, p := range callee.t.Params {
+				if !p.Optional && p.Name != "a" && p.Name != "s" {
+					fits = false
+				}
+			}
+			if fits {
+				mv := g.chooseRef(ms)
+				var de ref.Expr = mv
+				switch g.R.Intn(4) {
+				case 1:
+					de = &ref.Call{Fn: "augmentMap", Args: []ref.Expr{mv, &ref.MapLit{}}}
+				case 2:
+					de = &ref.Call{Fn: "augmentMap", Args: []ref.Expr{&ref.MapLit{}, mv}}
+				case 3:
+					de = &ref.Call{Fn: "augmentMap", Args: []ref.Expr{mv, &ref.MapLit{Keys: []string{"a"}, Vals: []ref.Expr{lit(ref.Int(int64(g.R.Intn(9))))}}}}
+				}
+				if attrSafe(de) {
+					n.Data = de
+					viaData = map[string]bool{"a": true, "s": true}
+					forceOverride = g.R.Bool() // explicit params on top of passed data go into a frame of their own
+				}
+			}
+		}
+	}
+	if mode == 3 && n.Data == nil {
 		saved := make([]bool, len(g.scope))
 		for i, b := range g.scope {
 			saved[i] = b.used
@@ -98,7 +128,7 @@ func (g *G) callOpt(depth int, allowContent bool) ref.Node {
 	}
 	for _, p := range callee.t.Params {
 		need := !p.Optional && !viaAll[p.Name] && !viaData[p.Name]
-		extra := g.R.P(1, 4) // override / pass an optional one
+		extra := g.R.P(1, 4) || (forceOverride && (p.Name == "a" || p.Name == "s")) // override / pass an optional one
 		if !need && !extra {
 			continue
 		}
@@ -280,6 +310,19 @@ func (g *G) Bundle(nFiles, nTmpl int) *Program {
 			np = 2
 		}
 		perm := g.R.Perm(len(ParamPool))
+		if i > 0 && g.R.P(1, 4) {
+			// a "record-like" callee: it takes (some of) the fields a map variable carries, so that callers can
+			// pass data="$m" or a view of it
+			idx := map[string]int{}
+			for k, pp := range ParamPool {
+				idx[pp.Name] = k
+			}
+			perm = []int{idx["a"], idx["s"]}
+			if g.R.Bool() {
+				perm = []int{idx["s"], idx["a"]}
+			}
+			np = 1 + g.R.Intn(2)
+		}
 		for k := 0; k < np; k++ {
 			p := ParamPool[perm[k]]
 			opt := (p.Ty.K == "int" || p.Ty.K == "str") && g.R.P(1, 4)
